@@ -104,6 +104,21 @@ def run(ctx: core.Ctx):
             ctx.record(fam, PROVED if ok else REFUTED, {"n": cfg[0], "connectivity": cfg[1], "case": key} if not ok or key.endswith("id=0") else None)
             if not ok:
                 ctx.violate(fam, key.replace(" table=", " cost="), what, rp, True)
+    # compressed circuits are delivered circuits too: compress_preparation_circuit(c) must cost what the library's circuit for the class of c|0> costs (the table value, whose
+    # minimality is the obligation above) - in particular never more because the INPUT was wasteful (repeated gates, routing SWAPs, every register layout)
+    from .c07 import circuit_jobs, eval_circuit
+    cj = [j for j in circuit_jobs(ctx) if len(j) > 3 or len(j[2]) > 2 or j[0] == 2]
+    for r, j in zip(core.pmap(eval_circuit, cj), cj):
+        small = len(j[2]) <= 2 and j[0] <= 3
+        for famname, ok, key, what, rp in r:
+            if famname != "C07.cost_of_class":
+                continue
+            fam = ctx.family("C05.compressed_cost_eq_class_cost" + (".le2gates_le3qubits" if small else ".seeded_circuits"), GROUND if small else core.BOUNDED, "native+oracle",
+                             "two-qubit count of the compressed circuit = table cost of the class of circuit|0>")
+            fam.exhaustive = small
+            ctx.record(fam, PROVED if ok else REFUTED, {"circuit": rp["circuit"][:60]} if fam.total < 2 else None)
+            if not ok:
+                ctx.violate(fam, key[:300].replace("C07.cost_of_class", "C05.compressed"), what, rp)
     ctx.extra["max_optimum_per_configuration"] = maxd
     ctx.extra["ground_time_s"] = round(time.time() - t, 2)
     ctx.trust("oracle tableau simulator, LC-orbit table, stabilizer->graph reduction and quotient-graph BFS (hv/oracle)",
@@ -117,6 +132,13 @@ def run(ctx: core.Ctx):
 
 def replay(data):
     inp = data["input"]
+    if "job" in inp and "circuit" in inp:
+        from .c07 import eval_circuit
+        n, conn, gl, layout = inp["job"]
+        bad = [r for r in eval_circuit((n, conn, [(nm, list(q)) for nm, q in gl], layout)) if not r[1] and r[0] == "C07.cost_of_class"]
+        for r in bad:
+            print("REPRODUCED:", r[3])
+        return 1 if bad else 0
     n, conn, k = inp["n"], inp["connectivity"], inp["class_id"]
     res, _ = config_job((n, conn))
     hit = [r for r in res if not r[1] and f"id={k} " in r[2] + " "]
